@@ -735,4 +735,231 @@ theorem inverse_jacobian_lemma (f : ℝ → ℝ → ℝ) (g : ℝ → ℝ) (fF f
   norm_num
   field_simp
   linear_combination e
+/-! ### scatter (NumPy fancy-index `op=`) -/
+section scatter
+variable {β : Type}
+
+/-- everything that is routed to position `k`, accumulated from `b` -/
+def routedAcc (op : β → β → β) (l : List (Nat × β)) (k : Nat) (b : β) : β :=
+  l.foldl (fun b iv => if iv.1 = k then op b iv.2 else b) b
+
+/-- the LAST entry routed to position `k` applied to the original value `b0` (`r` if there is none) -/
+def routedLast (op : β → β → β) (b0 : β) (l : List (Nat × β)) (k : Nat) (r : β) : β :=
+  l.foldl (fun r iv => if iv.1 = k then op b0 iv.2 else r) r
+
+@[simp] theorem routedAcc_nil (op : β → β → β) (k : Nat) (b : β) : routedAcc op [] k b = b := rfl
+@[simp] theorem routedAcc_cons (op : β → β → β) (iv : Nat × β) (l : List (Nat × β)) (k : Nat) (b : β) :
+    routedAcc op (iv :: l) k b = routedAcc op l k (if iv.1 = k then op b iv.2 else b) := rfl
+@[simp] theorem routedLast_nil (op : β → β → β) (b0 : β) (k : Nat) (r : β) : routedLast op b0 [] k r = r := rfl
+@[simp] theorem routedLast_cons (op : β → β → β) (b0 : β) (iv : Nat × β) (l : List (Nat × β)) (k : Nat) (r : β) :
+    routedLast op b0 (iv :: l) k r = routedLast op b0 l k (if iv.1 = k then op b0 iv.2 else r) := rfl
+
+theorem routedAcc_cons_ne (op : β → β → β) (iv : Nat × β) (l : List (Nat × β)) (k : Nat) (h : iv.1 ≠ k) :
+    routedAcc op (iv :: l) k = routedAcc op l k := by funext b; rw [routedAcc_cons, if_neg h]
+theorem routedLast_cons_ne (op : β → β → β) (b0 : β) (iv : Nat × β) (l : List (Nat × β)) (k : Nat) (h : iv.1 ≠ k) :
+    routedLast op b0 (iv :: l) k = routedLast op b0 l k := by funext b; rw [routedLast_cons, if_neg h]
+
+theorem foldl_acc_getElem? (op : β → β → β) (l : List (Nat × β)) (acc : List β) (k : Nat) :
+    (l.foldl (fun acc (iv : Nat × β) =>
+        match acc[iv.1]? with
+        | some b0 => acc.set iv.1 (op b0 iv.2)
+        | none => acc) acc)[k]? = acc[k]?.map (routedAcc op l k) := by
+  induction l generalizing acc with
+  | nil => rw [List.foldl_nil]; cases acc[k]? <;> rfl
+  | cons iv l ih =>
+    rw [List.foldl_cons, ih]
+    by_cases hik : iv.1 = k
+    · subst hik
+      cases h : acc[iv.1]? with
+      | none => simp [h]
+      | some b0 =>
+        have hlt : iv.1 < acc.length := (List.getElem?_eq_some_iff.mp h).1
+        simp [List.getElem?_set, hlt]
+    · rw [routedAcc_cons_ne op iv l k hik]
+      cases h : acc[iv.1]? with
+      | none => rfl
+      | some b0 => simp [hik, List.getElem?_set]
+
+theorem foldl_acc_length (op : β → β → β) (l : List (Nat × β)) (acc : List β) :
+    (l.foldl (fun acc (iv : Nat × β) =>
+        match acc[iv.1]? with
+        | some b0 => acc.set iv.1 (op b0 iv.2)
+        | none => acc) acc).length = acc.length := by
+  induction l generalizing acc with
+  | nil => rfl
+  | cons iv l ih =>
+    rw [List.foldl_cons, ih]
+    cases h : acc[iv.1]? <;> simp
+
+theorem foldl_op_length (op : β → β → β) (base : List β) (l : List (Nat × β)) (acc : List β) :
+    (l.foldl (fun acc (iv : Nat × β) =>
+        match base[iv.1]? with
+        | some b0 => acc.set iv.1 (op b0 iv.2)
+        | none => acc) acc).length = acc.length := by
+  induction l generalizing acc with
+  | nil => rfl
+  | cons iv l ih =>
+    rw [List.foldl_cons, ih]
+    cases h : base[iv.1]? <;> simp
+
+theorem foldl_op_getElem? (op : β → β → β) (base : List β) (l : List (Nat × β)) (acc : List β) (k : Nat)
+    (b0 : β) (hb : base[k]? = some b0) (hlen : acc.length = base.length) :
+    (l.foldl (fun acc (iv : Nat × β) =>
+        match base[iv.1]? with
+        | some b0 => acc.set iv.1 (op b0 iv.2)
+        | none => acc) acc)[k]? = acc[k]?.map (routedLast op b0 l k) := by
+  induction l generalizing acc with
+  | nil => rw [List.foldl_nil]; cases acc[k]? <;> rfl
+  | cons iv l ih =>
+    rw [List.foldl_cons]
+    by_cases hik : iv.1 = k
+    · subst hik
+      have hlt : iv.1 < acc.length := by
+        have := (List.getElem?_eq_some_iff.mp hb).1; omega
+      rw [hb, ih _ (by simp [hlen])]
+      have h : acc[iv.1]? = some acc[iv.1] := List.getElem?_eq_getElem hlt
+      simp [List.getElem?_set, hlt, h]
+    · rw [routedLast_cons_ne op b0 iv l k hik]
+      cases h : base[iv.1]? with
+      | none => exact ih acc hlen
+      | some b1 =>
+        show (List.foldl _ (acc.set iv.1 (op b1 iv.2)) l)[k]? = _
+        rw [ih _ (by simp [hlen])]
+        simp [List.getElem?_set, hik]
+
+theorem routedAcc_no_key (op : β → β → β) (l : List (Nat × β)) (k : Nat) (b : β)
+    (h : ∀ iv ∈ l, iv.1 ≠ k) : routedAcc op l k b = b := by
+  induction l generalizing b with
+  | nil => rfl
+  | cons iv l ih =>
+    have : iv.1 ≠ k := h iv (by simp)
+    rw [routedAcc_cons, if_neg this]
+    exact ih b (fun iv' hm => h iv' (by simp [hm]))
+
+theorem routedLast_no_key (op : β → β → β) (b0 : β) (l : List (Nat × β)) (k : Nat) (r : β)
+    (h : ∀ iv ∈ l, iv.1 ≠ k) : routedLast op b0 l k r = r := by
+  induction l generalizing r with
+  | nil => rfl
+  | cons iv l ih =>
+    have : iv.1 ≠ k := h iv (by simp)
+    rw [routedLast_cons, if_neg this]
+    exact ih r (fun iv' hm => h iv' (by simp [hm]))
+
+/-- with distinct target indices "accumulate" and "last wins" coincide -/
+theorem routed_nodup (op : β → β → β) (l : List (Nat × β)) (k : Nat) (b0 : β)
+    (hnd : (l.map Prod.fst).Nodup) : routedAcc op l k b0 = routedLast op b0 l k b0 := by
+  induction l with
+  | nil => rfl
+  | cons iv l ih =>
+    rw [List.map_cons, List.nodup_cons] at hnd
+    rw [routedAcc_cons, routedLast_cons]
+    by_cases hik : iv.1 = k
+    · have hno : ∀ iv' ∈ l, iv'.1 ≠ k := by
+        intro iv' hm heq
+        apply hnd.1
+        rw [hik, ← heq]; exact List.mem_map_of_mem hm
+      simp only [hik, if_true]
+      rw [routedAcc_no_key op l k _ hno, routedLast_no_key op b0 l k _ hno]
+    · simp only [hik, if_false]
+      exact ih hnd.2
+
+theorem zip_fst_nodup (idx : List Nat) (vals : List β) (h : idx.Nodup) : ((idx.zip vals).map Prod.fst).Nodup := by
+  induction idx generalizing vals with
+  | nil => simp
+  | cons i idx ih =>
+    cases vals with
+    | nil => simp
+    | cons v vals =>
+      rw [List.nodup_cons] at h
+      simp only [List.zip_cons_cons, List.map_cons, List.nodup_cons]
+      refine ⟨?_, ih vals h.2⟩
+      intro hm
+      rcases List.mem_map.mp hm with ⟨⟨a, b⟩, hab, rfl⟩
+      exact h.1 (List.of_mem_zip hab).1
+
+theorem scatterAcc_getElem? (op : β → β → β) (base : List β) (idx : List Nat) (vals : List β) (k : Nat) :
+    (scatterAcc op base idx vals)[k]? = base[k]?.map (routedAcc op (idx.zip vals) k) :=
+  foldl_acc_getElem? op (idx.zip vals) base k
+
+theorem scatterOp_getElem? (op : β → β → β) (base : List β) (idx : List Nat) (vals : List β) (k : Nat)
+    (b0 : β) (hb : base[k]? = some b0) :
+    (scatterOp op base idx vals)[k]? = some (routedLast op b0 (idx.zip vals) k b0) := by
+  have := foldl_op_getElem? op base (idx.zip vals) base k b0 hb rfl
+  rw [hb] at this
+  exact this
+
+theorem scatterOp_length (op : β → β → β) (base : List β) (idx : List Nat) (vals : List β) :
+    (scatterOp op base idx vals).length = base.length := foldl_op_length op base _ base
+theorem scatterAcc_length (op : β → β → β) (base : List β) (idx : List Nat) (vals : List β) :
+    (scatterAcc op base idx vals).length = base.length := foldl_acc_length op _ base
+
+/-- for distinct indices the code's fancy-index update is the accumulating update -/
+theorem scatterOp_eq_scatterAcc (op : β → β → β) (base : List β) (idx : List Nat) (vals : List β)
+    (h : idx.Nodup) : scatterOp op base idx vals = scatterAcc op base idx vals := by
+  apply List.ext_getElem?
+  intro k
+  rw [scatterAcc_getElem?]
+  cases hb : base[k]? with
+  | none =>
+    have : (scatterOp op base idx vals)[k]? = none := by
+      rw [List.getElem?_eq_none_iff, scatterOp_length]; exact List.getElem?_eq_none_iff.mp hb
+    rw [this]; rfl
+  | some b0 =>
+    rw [scatterOp_getElem? op base idx vals k b0 hb]
+    simp only [Option.map_some]
+    rw [routed_nodup op _ k b0 (zip_fst_nodup idx vals h)]
+
+end scatter
+
+theorem routedAcc_add_sum (l : List (Nat × ℝ)) (k : Nat) (b : ℝ) :
+    routedAcc (· + ·) l k b = b + ((l.filter (fun iv => iv.1 == k)).map Prod.snd).sum := by
+  induction l generalizing b with
+  | nil => simp
+  | cons iv l ih =>
+    rw [routedAcc_cons, ih]
+    by_cases h : iv.1 = k
+    · simp [h, List.filter_cons]; ring
+    · simp [h, List.filter_cons]
+
+theorem routedAcc_sub_sum (l : List (Nat × ℝ)) (k : Nat) (b : ℝ) :
+    routedAcc (· - ·) l k b = b - ((l.filter (fun iv => iv.1 == k)).map Prod.snd).sum := by
+  induction l generalizing b with
+  | nil => simp
+  | cons iv l ih =>
+    rw [routedAcc_cons, ih]
+    by_cases h : iv.1 = k
+    · simp [h, List.filter_cons]; ring
+    · simp [h, List.filter_cons]
+
+/-- `pick` of the positions of the `true` entries of a mask = filtering by the mask -/
+theorem pick_flatnonzero_aux {β : Type} (mask : List Bool) (row pre : List β) (h : row.length = mask.length) :
+    pick (((mask.zipIdx pre.length).filter (·.1)).map (·.2)) (pre ++ row)
+      = some ((row.zip mask).filterMap fun vm => if vm.2 then some vm.1 else none) := by
+  induction mask generalizing row pre with
+  | nil => simp [pick]
+  | cons m ms ih =>
+    cases row with
+    | nil => simp at h
+    | cons r rs =>
+      simp only [List.length_cons, Nat.add_right_cancel_iff] at h
+      have ih' := ih rs (pre ++ [r]) h
+      simp only [List.length_append, List.length_cons, List.length_nil, List.append_assoc,
+        List.cons_append, List.nil_append] at ih'
+      simp only [List.zipIdx_cons, List.zip_cons_cons]
+      cases m with
+      | false =>
+        simp only [List.filter_cons, Bool.false_eq_true, if_false, List.filterMap_cons]
+        exact ih'
+      | true =>
+        simp only [List.filter_cons, if_true, List.map_cons, List.filterMap_cons]
+        unfold pick at ih' ⊢
+        rw [List.mapM_cons, ih']
+        simp
+
+theorem pick_flatnonzero {β : Type} (mask : List Bool) (row : List β) (h : row.length = mask.length) :
+    pick (flatnonzero mask) row = some ((row.zip mask).filterMap fun vm => if vm.2 then some vm.1 else none) := by
+  have := pick_flatnonzero_aux mask row [] h
+  simpa [flatnonzero] using this
+
+
 end Verif.C13
